@@ -136,6 +136,7 @@ type planT struct {
 	era        *eraT
 	inputs     []inRef
 	collateral []inRef
+	refInputs  []inRef
 	reqSigners [][]byte
 	wdrls      [][]byte // reward address bytes
 	isValid    bool
@@ -183,6 +184,13 @@ func (p *planT) body(r *vh.Rng) *vh.Item {
 			rs = append(rs, vh.B(h))
 		}
 		kv = append(kv, vh.U(14), setOf(p.setTag, rs))
+	}
+	if len(p.refInputs) > 0 {
+		var cs []*vh.Item
+		for _, i := range p.refInputs {
+			cs = append(cs, inItem(i))
+		}
+		kv = append(kv, vh.U(18), setOf(p.setTag, cs))
 	}
 	return vh.M(kv...)
 }
